@@ -30,6 +30,33 @@ func (w *FailingWriter) Write(p []byte) (int, error) {
 	return room, ErrInjected
 }
 
+// TransientWriter accepts everything except that the write crossing offset At is cut there and
+// fails once with Err (a short write with an error); later writes succeed again. Buf collects
+// what was accepted.
+type TransientWriter struct {
+	At     int
+	Err    error
+	Buf    []byte
+	failed bool
+}
+
+func (w *TransientWriter) Write(p []byte) (int, error) {
+	if !w.failed && len(w.Buf)+len(p) > w.At {
+		w.failed = true
+		n := w.At - len(w.Buf)
+		if n < 0 {
+			n = 0
+		}
+		w.Buf = append(w.Buf, p[:n]...)
+		return n, w.Err
+	}
+	w.Buf = append(w.Buf, p...)
+	return len(p), nil
+}
+
+// Failed reports whether the one failure was delivered.
+func (w *TransientWriter) Failed() bool { return w.failed }
+
 var once sync.Once
 var mu sync.Mutex
 
